@@ -4,7 +4,9 @@ from common import enc, dec, P1, P2, PR
 import solvecommon as sc, oracle_exact as ox, gen_games, impl
 
 RULE = ("one Player-1 / probabilistic state with k successors in EVERY dead/alive pattern (k<=4 quick, k<=6 thorough) inside "
-        "a host game + corpus (two adjacent / two separated dead successors) + random games whose reward loop terminates; "
+        "a host game + corpus (two adjacent / two separated dead successors) + random games whose reward loop terminates + "
+        "'twin' games (a predecessor-less copy of a Player-2/probabilistic state, the description spelt with one shared list "
+        "object for equal rows); "
         "observed: every node's next_states when the reward loop starts. non-trivial = >3 states and a state with >=2 "
         "transitions; distinct by (description, mode)")
 ASSUMPTIONS = ["theorems are generic in the number operations, so they hold of the binary64 instance; 'sum to 1' is proved on exact rationals"]
@@ -68,7 +70,9 @@ def games_for(ctx):
     kmax = 4 if ctx.quick else 6
     games = [(gen_games.FIG55, gen_games.FIG55_META)] + sc.corpus_games() + gen_games.pattern_games(kmax)
     games += gen_games.pattern_games3(3 if ctx.quick else 4)
-    games += gen_games.mixed_games(ctx.rng, 150 if ctx.quick else 3000, 3, 9, styles=("stopping", "exact"))
+    rnd = gen_games.mixed_games(ctx.rng, 150 if ctx.quick else 3000, 3, 9, styles=("stopping", "exact"))
+    games += rnd
+    games += gen_games.twin_games(rnd + games[:40], ctx.rng, 60 if ctx.quick else 600)
     for g, m in gen_games.mixed_games(ctx.rng, 60 if ctx.quick else 1000, 3, 8, styles=("cyclic", "tiny", "players")):
         m = dict(m, full=True)
         games.append((gen_games.zero_rewards(g), m))
@@ -91,6 +95,14 @@ def replay(ctx, data):
     v = sc.replay_input(data)
     if v is None:
         return 1
-    res = impl.run_cases([dict(op="solve", game=v["game"], prune=v["prune"])])[0]
-    print("implementation:", res)
-    return 0 if "ok" in res else 1
+    meta = dict(style=v.get("style") or "stopping", share=bool(v.get("share")), full=True)
+    recs = sc.run_games(ctx, [(dec(v["game"]), meta)], modes=(v["prune"],), limit=60, tag="c03r")
+    for r in recs:
+        print("implementation:", r.describe(), "| lists when the reward loop starts:", r.pruned)
+    check(ctx, recs)
+    sc.correspondence(ctx, recs, "cmp_pruned", "c03r")
+    for x in ctx.violations:
+        print("violation:", x["what"])
+    for x in ctx.corr_breaks:
+        print("model/implementation mismatch:", x["what"])
+    return 1 if (ctx.violations or ctx.corr_breaks) else 0
